@@ -244,6 +244,9 @@ func (in *c15Input) targeter(cs *c15Case) vegeta.Targeter {
 
 var c15Sink atomic.Int64
 
+// c15Progress counts returned draws (all histories of the process); the deadlock detector reads it.
+var c15Progress atomic.Int64
+
 // c15Jitter separates two draws of a caller: nothing (tight loop), a yield, or
 // a short local spin. tight callers (decided per caller from the case seed)
 // mostly hammer the targeter.
@@ -383,6 +386,7 @@ func c15Run(cs *c15Case, in *c15Input) []c15Event {
 				t0 := int64(time.Since(start))
 				err, pan := c15Draw(tr, tgt)
 				t1 := int64(time.Since(start))
+				c15Progress.Add(1)
 				e := c15Event{Caller: g, Call: t0, Ret: t1, ID: -1}
 				switch {
 				case pan != nil:
@@ -637,11 +641,69 @@ func c15RunAndJudge(run *ev.Run, cs *c15Case, dir, mode string) bool {
 		ch <- result{events: c15Run(cs, in), in: in}
 	}()
 	var res result
-	select {
-	case res = <-ch:
-	case <-time.After(3 * time.Minute):
-		run.Inconclusive(fmt.Sprintf("history %s did not finish within the 3 min watchdog (callers blocked inside the targeter?)", b))
-		return false
+	// The callers never sleep and the input is in memory, so a history can only stand still when
+	// every caller is parked. If at least one of them is parked inside the targeter and no draw
+	// returns between several goroutine dumps, no caller can ever be released: the targeter has
+	// deadlocked and the blocked callers will never be told about exhaustion. The wall-clock
+	// watchdog remains and only yields "inconclusive".
+	watchdog := time.After(3 * time.Minute)
+	tick := time.NewTicker(150 * time.Millisecond)
+	defer tick.Stop()
+	lastProgress, still := int64(-1), 0
+wait:
+	for {
+		select {
+		case res = <-ch:
+			break wait
+		case <-watchdog:
+			run.Inconclusive(fmt.Sprintf("history %s did not finish within the 3 min watchdog (callers blocked inside the targeter?)", b))
+			return false
+		case <-tick.C:
+			p := c15Progress.Load()
+			if p != lastProgress {
+				lastProgress, still = p, 0
+				continue
+			}
+			callers, parked, inTargeter, where := 0, 0, 0, ""
+			gs := goroutineDump()
+			for _, g := range gs {
+				if !strings.Contains(g.Frames, "main.c15Run.func") {
+					continue
+				}
+				callers++
+				if parkedState(g.State) {
+					parked++
+					if strings.Contains(g.Frames, "main.c15Draw") && isVegetaG(g) {
+						inTargeter++
+						if where == "" {
+							where = "targeter[" + g.State + "]"
+							for _, l := range strings.Split(g.Frames, "\n") {
+								if l = strings.TrimSpace(l); strings.HasPrefix(l, repoDir()+"/") {
+									l = strings.TrimPrefix(l, repoDir()+"/")
+									if k := strings.IndexByte(l, ':'); k > 0 {
+										l = l[:k]
+									}
+									where = l + "[" + g.State + "]"
+									break
+								}
+							}
+						}
+					}
+				}
+			}
+			if callers == 0 || parked < callers || inTargeter == 0 || c15Progress.Load() != p {
+				still = 0
+				continue
+			}
+			if still++; still < 4 {
+				continue
+			}
+			run.Eval(1)
+			run.Violate("C15/blocked/"+cs.Kind+"/"+where,
+				fmt.Sprintf("%s targeter: all %d remaining callers are parked, %d of them inside the targeter (%s), and no draw has returned across %d goroutine dumps: these callers are never told that the targets are exhausted", cs.Kind, callers, inTargeter, where, still),
+				c15Witness{Case: *cs, Mode: mode, Clause: "blocked", Summary: c12Trunc(describeGs(gs))})
+			return false
+		}
 	}
 	if res.err != nil {
 		run.Inconclusive("cannot build input: " + res.err.Error())
